@@ -85,8 +85,12 @@ def type_shape(facts):
     okf = False
     if fin is not None:
         names = [(tt.get("fn") or {}).get("name") for _bi, tt in fin.calls()]
-        okf = "into_values" in names and "for_each" in names and not any(n in ("rev", "sort", "sort_by", "sort_unstable")
-                                                                         for n in names)
+        # ascending key order: the map itself is iterated (into_values / into_iter / values, by for_each or a `for` loop) and
+        # nothing reverses or re-sorts
+        takes = any(n in ("into_values", "into_iter", "values", "iter") for n in names)
+        consumes = "for_each" in names or "next" in names
+        okf = takes and consumes and not any(n in ("rev", "sort", "sort_by", "sort_by_key", "sort_unstable", "sort_unstable_by",
+                                                   "next_back", "pop_last", "last_entry", "rfold", "rfind") for n in names)
     t.row(okf, "par::ParSink::finalize", "in-order-drain", "ParSink::finalize does not drain the map with into_values()."
           "for_each(f)")
     # the entry point adds frames in collector order: frames.push inside the finalize closure, add_frame over `frames`
